@@ -36,6 +36,12 @@ def nets():
     for b in bs[1:]:
         pp.create_load(n4, b, 25., 4.)
     yield "double circuits with an unsorted line index", n4
+    # the loading limit is an optional column: lines with a limit, transformers without
+    n5 = nw.case14()
+    n5.line["max_loading_percent"] = 50.
+    if "max_loading_percent" in n5.trafo:
+        n5.trafo.drop(columns="max_loading_percent", inplace=True)
+    yield "case14 without a loading limit of the transformers", n5
 
 
 def brute(net, cases):
@@ -69,6 +75,7 @@ def check_sequential(name, net, cases, fails, raise_errors=False):
             fails.append(f"{name}: in_service flags of {e} not restored")
     if res is None:
         return
+    check_tables(name, net, res, fails)
     pp.runpp(net)
     for e in ("line", "trafo", "trafo3w"):
         if not len(net[e]) or e not in res:
@@ -79,6 +86,10 @@ def check_sequential(name, net, cases, fails, raise_errors=False):
             col = [(c, v[e][pos]) for c, v in vals.items() if c != (e, lab) and not np.isnan(v[e][pos])]
             if not col:
                 continue
+            if "max_loading_percent" not in res[e] or "min_loading_percent" not in res[e]:
+                fails.append(f"{name}: no max_loading_percent / min_loading_percent reported for {e} (true max of {e} {lab}: "
+                             f"{max(v for _, v in col):.4f})")
+                break
             mx, mn = max(v for _, v in col), min(v for _, v in col)
             if not np.isclose(res[e]["max_loading_percent"][pos], mx, rtol=1e-6, atol=1e-8):
                 fails.append(f"{name}: {e} {lab} max_loading_percent {res[e]['max_loading_percent'][pos]:.6f} != true max {mx:.6f}")
@@ -104,6 +115,52 @@ def check_sequential(name, net, cases, fails, raise_errors=False):
         col = [v["bus"][pos] for c, v in vals.items() if not np.isnan(v["bus"][pos])]
         if col and not (np.isclose(res["bus"]["max_vm_pu"][pos], max(col), atol=1e-8) and np.isclose(res["bus"]["min_vm_pu"][pos], min(col), atol=1e-8)):
             fails.append(f"{name}: bus {lab} min/max vm_pu wrong")
+
+
+def check_tables(name, net, res, fails):
+    """what run_contingency writes to the result tables is what it returns"""
+    for e, d in res.items():
+        tab = net["res_" + e]
+        for var, val in d.items():
+            if var == "index":
+                continue
+            if var not in tab.columns:
+                fails.append(f"{name}: res_{e} has no column {var}")
+                continue
+            got = tab.loc[d["index"], var].values
+            if val.dtype == object or got.dtype == object:
+                same = all((x == y) or (x is None and (y is None or y != y)) for x, y in zip(val, got))
+            else:
+                same = np.allclose(got.astype(float), val.astype(float), rtol=1e-9, atol=1e-12, equal_nan=True)
+            if not same:
+                fails.append(f"{name}: res_{e}.{var} = {np.asarray(got)[:6]} differs from the returned {np.asarray(val)[:6]}")
+
+
+def main_tables():
+    """run_contingency on a net that already carries the results of an earlier analysis (a second run after a change of the loads,
+    started from the previous results, so that the result tables are kept)"""
+    fails = []
+    done = 0
+    for name, net in nets():
+        cases = {"line": {"index": list(net.line.index.values)}}
+        run_contingency(net, cases)
+        net.load["p_mw"] *= 1.1
+        try:
+            res = run_contingency(net, cases, init="results")
+        except Exception:
+            continue        # the N-0 case does not converge from the kept results (case9): nothing is returned or written
+        done += 1
+        check_tables(name + " (second analysis with loads * 1.1, init='results': the result tables of the first analysis are kept)", net, res, fails)
+        if fails:
+            break
+    if not fails and done < 3:
+        print("replay broken: fewer than 3 networks evaluated")
+        sys.exit(3)
+    if fails:
+        print("VIOLATION REPRODUCED:", fails[0][:600])
+        sys.exit(1)
+    print("not reproduced")
+    sys.exit(0)
 
 
 def main(clause=None):
